@@ -245,6 +245,11 @@ def rule_K_DISPATCH(ctx, repo):
                 v = o.val
                 inner = ('call', ('lib', '%s.keymap.%s' % (m.rel, meth)), (SELF, ('star', va)), (('dstar', kw),))
                 ok = v[0] == 'call' and libname(v[1]) == enc and v[1][0] == 'lib' and v[2] and v[2][0] == inner
+                if not ok and cname == 'hashmap' and truth_of(o, lambda t: t[0] == 'cmp' and t[1] == 'is' and t[2] == ('attr', SELF, '__type__') and t[3] == NONE) \
+                        and v[0] == 'call' and libname(v[1]) == enc and v[2] and contains_term(v[2][0], lambda t: t == inner):
+                    # python's builtin hash (algorithm None) is outside the session-stable / information-preserving configurations the properties speak about:
+                    # there the base key may be re-shaped (a dict of keywords cannot be hashed) as long as it is the base key that is hashed
+                    ok = True
                 ctx.ob('K-DISPATCH', '%s.%s' % (cname, meth), ok)
                 if not ok:
                     ctx.fail('K-DISPATCH', f2.qual, '%s.%s returns %s' % (cname, meth, render(v)[:80]),
@@ -979,3 +984,42 @@ def rule_K_FORWARD(ctx, repo):
                          '%s:%d' % (mk.rel, node.lineno))
     if n < 3:
         raise AnalysisError('K-HASH (forwarded options): fewer than three keyword arguments passed from keymaps.py to the crypto encoders')
+
+
+def rule_K_RED(ctx, repo):
+    """K-RED (a pickled or copied keymap keys as the original does): keymaps travel inside pickled decorators and are copied by `a + b`.  The default protocol
+    carries the instance __dict__ whole.  A pickling / copying hook of a keymap class (__reduce__, __reduce_ex__, __getstate__, __copy__, __deepcopy__) that
+    rebuilds the object from selected settings must name every attribute the constructors set - or carry self.__dict__ - otherwise the clone silently reverts
+    the ones left out (the fast types, the sorted / tuple / type / len hooks) and computes other keys than the process that archived the results."""
+    m = repo.mod('keymaps')
+    if 'keymap' not in m.classes:
+        raise AnalysisError('anchor vanished: keymaps.keymap')
+    n = 0
+    for lab, ci in sorted(m.classes.items()):
+        attrs = {}
+        for c in [ci] + list(ci.ancestors()):
+            init = (c.own_methods if hasattr(c, 'own_methods') else c.methods).get('__init__')
+            if init is None:
+                continue
+            selfn = init.node.args.args[0].arg if init.node.args.args else 'self'
+            for x in ast.walk(init.node):
+                if isinstance(x, ast.Attribute) and isinstance(x.ctx, ast.Store) and isinstance(x.value, ast.Name) and x.value.id == selfn:
+                    attrs.setdefault(x.attr, x.lineno)
+        own = ci.own_methods if hasattr(ci, 'own_methods') else ci.methods
+        for h in ('__reduce__', '__reduce_ex__', '__getstate__', '__copy__', '__deepcopy__'):
+            if h not in own:
+                continue
+            n += 1
+            fn = own[h].node
+            src = unparse(fn)
+            whole = '__dict__' in src or 'vars(self)' in src
+            named = set(x.attr for x in ast.walk(fn) if isinstance(x, ast.Attribute)) | set(x.value for x in ast.walk(fn) if isinstance(x, ast.Constant) and isinstance(x.value, str))
+            # name-mangled privates: self.__x is stored as _Class__x
+            missing = sorted(a for a in attrs if a not in named and a.split('__', 1)[-1] not in named) if not whole else []
+            ctx.ob('K-RED', '%s.%s carries every attribute the constructors set (%d)' % (lab, h, len(attrs)), not missing)
+            if missing:
+                ctx.fail('K-RED', '%s::%s.%s' % (m.rel, lab, h), '%s leaves out %s' % (h, ', '.join(missing)[:60]),
+                         '%s.%s rebuilds the keymap without %s (set by the constructor): a keymap that was built with one of these customised comes back with the '
+                         'defaults after pickling or copying (dill ships decorated functions to other processes; `a + b` copies its operands), so the clone computes '
+                         'different keys for the same calls - results archived by the original are missed and recomputed' % (lab, h, ', '.join(missing)), '%s:%d' % (m.rel, fn.lineno))
+    ctx.ob('K-RED', 'pickling / copying hooks of keymap classes examined', True, n=max(n, 1))
